@@ -547,7 +547,19 @@ fn race_unlink(inst: &Inst, io: &Io, op: &[&str], orc: &mut Vec<(String, String)
             let _ = inst.fs.lookup(&Context::default(), gino, &cname(d));
             SLOW.with(|s| s.set(false));
         });
-        let parked = entered_rx.recv_timeout(Duration::from_millis(400)).is_ok();
+        // wait until the second client is parked — or has finished without getting there
+        let t0 = std::time::Instant::now();
+        let mut parked = false;
+        while t0.elapsed() < Duration::from_millis(400) {
+            if entered_rx.try_recv().is_ok() {
+                parked = true;
+                break;
+            }
+            if slow.is_finished() {
+                break;
+            }
+            std::thread::sleep(Duration::from_micros(200));
+        }
         stats.push(format!("race:{}", if parked { "second-client-parked" } else { "no-park" }));
         res = do_op(inst, io, op, orc);
         let _ = go_tx.send(());
